@@ -45,7 +45,8 @@ def order2(c0a: bool, c0b: bool, c0c: bool, p0a: bool, p0b: bool, p0c: bool, a0:
     pre: True
     post: _
     """
-    tick()
+    if tick():
+        return True
     fixed = _part(2, None)
     c0, p0 = (fixed if fixed else (bits(c0a, c0b, c0c), bits(p0a, p0b, p0c)))
     c1, p1 = bits(c1a, c1b, c1c), bits(p1a, p1b, p1c)
@@ -70,7 +71,8 @@ def order3(x0: bool, y0: bool, a0: bool, x1a: bool, x1b: bool, y1a: bool, y1b: b
     pre: True
     post: _
     """
-    tick()
+    if tick():
+        return True
     C3 = ["runtime", "Syntax", "weird"]
     P3 = [None, "low", "student"]
     fixed = _part(2, None)
@@ -94,7 +96,8 @@ def order_reach(c1a: bool, c1b: bool, c1c: bool, a0: bool, a1: bool) -> bool:
     pre: True
     post: _
     """
-    tick()
+    if tick():
+        return True
     c1 = bits(c1a, c1b, c1c)
     if c1 >= 6:
         return True
@@ -115,7 +118,8 @@ def flags2(a0: bool, mu0: bool, k0a: bool, k0b: bool, e0: bool,
     pre: True
     post: _
     """
-    tick()
+    if tick():
+        return True
     k0, k1 = bits(k0a, k0b), bits(k1a, k1b)
     if k0 >= 3 or k1 >= 3:
         return True
@@ -181,7 +185,8 @@ def suppress2(fc: bool, fv: int, has_field: bool,
     pre: True
     post: _
     """
-    tick()
+    if tick():
+        return True
     use_full = PART.endswith("F")
     forms = [int(x) for x in (PART.rstrip(",F") or "1,2").split(",") if x != ""]
     ca, cb = bits(sa_c0, sa_c1), bits(sb_c0, sb_c1)
@@ -224,7 +229,8 @@ def suppress_reach(fl: str, sa_l: str, fv: int, sa_v: int) -> bool:
     pre: len(fl) == 1 and len(sa_l) == 1
     post: _
     """
-    tick()
+    if tick():
+        return True
     r = Report()
     Feedback(label=fl, category="runtime", message="M0", fields={"k": fv}, report=r)
     Feedback(label="zz-fallback", category="lowest", message="M1", report=r)
@@ -242,7 +248,8 @@ def ties3(a0: bool, mu0: bool, a1: bool, mu1: bool, a2: bool, mu2: bool, pa: boo
     pre: True
     post: _
     """
-    tick()
+    if tick():
+        return True
     p = bits(pa, pb)
     if p >= 3:
         return True
@@ -268,7 +275,8 @@ def rank_rows(b0: bool, b1: bool, b2: bool, b3: bool, d0: bool, d1: bool, d2: bo
     pre: True
     post: _
     """
-    tick()
+    if tick():
+        return True
     i0, i1 = bits(b0, b1, b2, b3), bits(d0, d1, d2, d3)
     if i0 >= 13 or i1 >= 13:
         return True
